@@ -75,6 +75,9 @@ def nf_shape(nf):
     if k == 'offset':
         return S.Nat
     if k == 'array':
+        inner = nf_shape(nf[2])
+        if isinstance(inner, (S.IntT, S.CodeT, S.Rec)):
+            return S.ListOf(inner)
         return S.Any
     if k == 'switch':
         return S.Any
@@ -122,7 +125,7 @@ def register_elf_layouts():
                 if isinstance(ec, int):
                     return sa if ec == 32 else sb
                 return z3.If(ec == 32, sa, sb)
-        register_layout(Layout(name, fields, size=size, minsize=minsize))
+        register_layout(Layout(name, fields, size=size, minsize=minsize, nf=b))
     for name in P32:
         a, b = P32[name], P64[name]
         sa, sb = nf_size(a), nf_size(b)
